@@ -139,12 +139,12 @@ package mqtt
 //@ ensures r0.FixedHeader == pk.FixedHeader && r0.PacketID == pk.PacketID && r0.ReasonCode == pk.ReasonCode && r0.ReasonCodes == pk.ReasonCodes && r0.SessionPresent == pk.SessionPresent && r0.Mods == pk.Mods && r0.ProtocolVersion == pk.ProtocolVersion && r0.TopicName == pk.TopicName && r0.Properties.TopicAlias == pk.Properties.TopicAlias && r0.Properties.MessageExpiryInterval == pk.Properties.MessageExpiryInterval && r0.Expiry == pk.Expiry
 
 // same packet as far as the handlers' claims go (the encoder-facing fields Mods / ProtocolVersion / expiry interval are set by WritePacket)
-// verif:def samePk(a Packet, b Packet) bool = a.FixedHeader == b.FixedHeader && a.PacketID == b.PacketID && a.ReasonCode == b.ReasonCode && a.ReasonCodes == b.ReasonCodes && a.SessionPresent == b.SessionPresent && a.TopicName == b.TopicName && a.Properties.TopicAlias == b.Properties.TopicAlias
+// verif:def samePk(a Packet, b Packet) bool = a.FixedHeader.Type == b.FixedHeader.Type && a.FixedHeader.Qos == b.FixedHeader.Qos && a.FixedHeader.Dup == b.FixedHeader.Dup && a.FixedHeader.Retain == b.FixedHeader.Retain && a.PacketID == b.PacketID && a.ReasonCode == b.ReasonCode && a.ReasonCodes == b.ReasonCodes && a.SessionPresent == b.SessionPresent && a.TopicName == b.TopicName && a.Properties.TopicAlias == b.Properties.TopicAlias
 
 // verif:func mqtt.Client.WritePacket
 //@ requires C32-lock-not-held-by-this-goroutine: cl.RWMutex.lheld == 0
 //@ ensures C32-lock-released-on-return: cl.RWMutex.lheld == 0
-//@ modifies cl.nsent, cl.sentpk, lastNow, cl.Net.outbuf, cl.Net.outbuf.rpos, cl.Net.outbuf.blen, cl.Net.outbuf.bdata, cl.ops.info.BytesSent, cl.ops.info.PacketsSent, cl.ops.info.MessagesSent
+//@ modifies cl.nsent, cl.sentpk, lastNow, cl.Net.outbuf, cl.Net.outbuf.rpos, cl.Net.outbuf.blen, cl.Net.outbuf.bdata, cl.ops.info.BytesSent, cl.ops.info.PacketsSent, cl.ops.info.MessagesSent, nput
 //@ requires cl != nil && cl.ops != nil
 //@ requires cl.ops.options != nil
 //@ requires cl.ops.options.Capabilities != nil
@@ -173,18 +173,6 @@ package mqtt
 //@ modifies buf.blen, buf.bdata
 //@ ensures buf.blen >= old(buf.blen) && buf.blen <= old(buf.blen) + 4294967295 && buf.rpos == old(buf.rpos)
 // verif:func packets.Packet.PublishEncode trusted
-//@ modifies buf.blen, buf.bdata
-//@ ensures buf.blen >= old(buf.blen) && buf.blen <= old(buf.blen) + 4294967295 && buf.rpos == old(buf.rpos)
-// verif:func packets.Packet.PubackEncode trusted
-//@ modifies buf.blen, buf.bdata
-//@ ensures buf.blen >= old(buf.blen) && buf.blen <= old(buf.blen) + 4294967295 && buf.rpos == old(buf.rpos)
-// verif:func packets.Packet.PubrecEncode trusted
-//@ modifies buf.blen, buf.bdata
-//@ ensures buf.blen >= old(buf.blen) && buf.blen <= old(buf.blen) + 4294967295 && buf.rpos == old(buf.rpos)
-// verif:func packets.Packet.PubrelEncode trusted
-//@ modifies buf.blen, buf.bdata
-//@ ensures buf.blen >= old(buf.blen) && buf.blen <= old(buf.blen) + 4294967295 && buf.rpos == old(buf.rpos)
-// verif:func packets.Packet.PubcompEncode trusted
 //@ modifies buf.blen, buf.bdata
 //@ ensures buf.blen >= old(buf.blen) && buf.blen <= old(buf.blen) + 4294967295 && buf.rpos == old(buf.rpos)
 // verif:func packets.Packet.SubscribeEncode trusted
